@@ -358,6 +358,17 @@ theorem tie_kvUsers : GoZero.Extracted.C15.kvUsers = [
   "NewStore:dispatcher.AddWithWeight(cn, node.Weight)",
   "getRedis:cs.dispatcher.Get(key)"] := rfl
 
+/-- kv glue: EVERY method of clusterStore that dispatches does so with its `key` parameter, unchanged (64 call
+sites today; a new method is covered as soon as it exists), and `getRedis` hands that key to the ring and returns the
+ring's answer (`ErrNoRedisNode` when the ring says none) -/
+theorem tie_kvMethodsDispatchByKey :
+    (GoZero.Extracted.C15.kvDispatchArgs.all fun a => a == "key") = true ∧
+    GoZero.Extracted.C15.kvDispatchArgs.length ≥ 60 ∧
+    GoZero.Extracted.C15.kvGetRedisBody = [
+      "val, ok := cs.dispatcher.Get(key)",
+      "if !ok { return nil, ErrNoRedisNode }",
+      "return val.(*redis.Redis), nil"] := by decide
+
 /-- the repr of both node types is the redis address (`lang.Repr` calls `String()`) -/
 theorem tie_userReprs : GoZero.Extracted.C15.cacheNodeStringExprs = ["ret:return c.rds.Addr"] ∧
     GoZero.Extracted.C15.redisStringExprs = ["ret:return s.Addr"] := ⟨rfl, rfl⟩
